@@ -637,3 +637,91 @@ func negateOp(op token.Token) token.Token {
 	}
 	return token.ILLEGAL
 }
+
+// reachingStores: the stores to a variable cell that may supply the value read at `use` (a load in the
+// declaring function or in a closure capturing the variable). A store in the declaring function that is
+// overwritten on every path by a later store dominating the use (or the creation of the closure) is left
+// out; stores made inside closures are always kept.
+func (c *Ctx) reachingStores(cell *ssa.Alloc, use ssa.Instruction) []*ssa.Store {
+	all := c.storesTo(cell)
+	F := cell.Parent()
+	var points []ssa.Instruction
+	closure := false
+	if use.Parent() == F {
+		points = []ssa.Instruction{use}
+	} else {
+		closure = true
+		g := use.Parent()
+		for g != nil && g.Parent() != F {
+			g = g.Parent()
+		}
+		if g == nil {
+			return all
+		}
+		eachInstr(F, func(in ssa.Instruction) {
+			if mc, ok := in.(*ssa.MakeClosure); ok && mc.Fn == g {
+				points = append(points, mc)
+			}
+		})
+	}
+	if len(points) != 1 {
+		return all
+	}
+	p := points[0]
+	idx := func(in ssa.Instruction) int {
+		for i, x := range in.Block().Instrs {
+			if x == in {
+				return i
+			}
+		}
+		return -1
+	}
+	dominates := func(a, b ssa.Instruction) bool {
+		if a.Block() == b.Block() {
+			return idx(a) < idx(b)
+		}
+		return a.Block().Dominates(b.Block())
+	}
+	reach := func(a, b ssa.Instruction) bool {
+		if a.Block() == b.Block() && idx(a) < idx(b) {
+			return true
+		}
+		seen := map[*ssa.BasicBlock]bool{}
+		work := append([]*ssa.BasicBlock{}, a.Block().Succs...)
+		for len(work) > 0 {
+			x := work[len(work)-1]
+			work = work[:len(work)-1]
+			if seen[x] {
+				continue
+			}
+			seen[x] = true
+			if x == b.Block() {
+				return true
+			}
+			work = append(work, x.Succs...)
+		}
+		return false
+	}
+	var d *ssa.Store
+	for _, s := range all {
+		if s.Parent() != F || !dominates(s, p) {
+			continue
+		}
+		if d == nil || dominates(d, s) {
+			d = s
+		}
+	}
+	if d == nil {
+		return all
+	}
+	var out []*ssa.Store
+	for _, s := range all {
+		switch {
+		case s == d, s.Parent() != F:
+			out = append(out, s)
+		case reach(d, s) && (closure || reach(s, p)):
+			out = append(out, s)
+		}
+	}
+	return out
+}
